@@ -498,37 +498,58 @@ def check_definitions(ctx, U):
 #  R-C07-4  packing
 # ============================================================================================
 def cvt_case_problems(cs, f):
-    """cs: cases of a cvt_uint32(float) term in input f -> (problems, undecided)"""
+    """cs: cases of a cvt_uint32(float) term in input f -> (problems, undecided).
+    Each case must be  convert(rounding(255 * c))  with c the saturating clamp of f to [0, 1]: c in {f, 0, 1}, inside [0, 1]
+    under the case guard, equal to f when f is inside.  Rounding forms: round / rint / floor(. + 1/2) and the truncating
+    conversion of (. + 1/2) (round-half-up, the operand being >= 0)."""
     clampcs = []
     probs, und = [], []
+    ok_c = lambda cv: any(I.equal(cv, z) for z in (f, 0, 1))
     for g, t in cs:
         if not (I.is_app(t, 'fptoui32') or I.is_app(t, 'fptosi32')):
             if t.is_Integer and 0 <= t <= 255:
-                # constant-folded arm: round(255*c)
-                clampcs.append((g, sp.Rational(t, 255)))
+                clampcs.append((g, sp.Rational(t, 255)))      # constant-folded arm round(255*c)
                 continue
             und.append('case `%s`: result %s is not a float-to-integer conversion' % (show_guard(g), t))
             continue
         A = t.args[0]
+        B = None
         if I.is_app(A, 'round') or I.is_app(A, 'rint'):
             B = A.args[0]
         elif I.is_app(A, 'floor'):
             B = A.args[0] - sp.Rational(1, 2)
+        elif unknown_atoms(A, ()):
+            und.append('case `%s`: %s is not a recognised rounding' % (show_guard(g), A))
+            continue
+        elif ok_c(sp.expand((A - sp.Rational(1, 2)) / 255)):
+            B = A - sp.Rational(1, 2)                           # (uint32_t)(255*c + 0.5f)
+        elif ok_c(sp.expand(A / 255)) or A.free_symbols <= {f}:
+            probs.append(('round', 'converts %s to an integer by truncation; the definition rounds to nearest' % A))
+            continue
         else:
-            if unknown_atoms(A, ()):
-                und.append('case `%s`: %s is not a recognised rounding' % (show_guard(g), A))
-            else:
-                probs.append(('round', 'converts %s to an integer by truncation; the definition rounds to nearest' % A))
+            und.append('case `%s`: converts %s' % (show_guard(g), A))
             continue
         cval = sp.expand(B / 255)
-        if any(I.equal(cval, z) for z in (f, 0, 1)):
+        if ok_c(cval):
             clampcs.append((g, cval))
         elif not unknown_atoms(B, ()) and B.free_symbols <= {f}:
             probs.append(('scale', 'case `%s`: rounds %s; the definition rounds 255 * clamp(f, 0, 1)' % (show_guard(g), B)))
         else:
             und.append('case `%s`: rounds %s' % (show_guard(g), B))
     p2, u2 = clamp_problems(clampcs, f, sp.Integer(0), sp.Integer(1), True)
-    return probs + [('clamp-' + k, w) for k, w in p2], und + u2
+    for k, w in p2:
+        if k == 'above':
+            # which case?  name the real cause: the conversion operand is unbounded
+            gs = [g for g, c in clampcs if I.equal(c, f) and I.consistent(list(g) + [I.flit('olt', 1, f)])]
+            g = gs[0] if gs else ()
+            late = any(any(a.func.__name__.startswith('fpto') for a in I.all_atoms(l)) for l in g)
+            probs.append(('conversion-range', 'case `%s`: the operand of the float -> uint32 conversion is 255*f (rounded) with f not bounded '
+                          'above - the case admits f > 1, so its range includes values >= 2^32 and +inf, for which the conversion is undefined '
+                          '(wraps to 0 on x86)%s: the channel is not saturating; the clamp to 1 has to be applied before the conversion'
+                          % (show_guard(g), '; the comparison with 255 is made on the already converted integer' if late else '')))
+        else:
+            probs.append(('clamp-' + k, w))
+    return probs, und + u2
 
 
 def check_packing(ctx, U):
